@@ -93,23 +93,38 @@ impl<'r> V11<'r> {
                 let hist = || format!("{} ; CRASH DURING {}", show_history(&ctx.history), show_batch(next));
                 // run the publish with the commit captured
                 let db = ctx.db.fork().await;
-                *db.ctl.commit_plan.lock().unwrap() = CommitPlan::CaptureAndFail;
+                // every write call of the publish is recorded and swallowed (however the implementation groups
+                // its writes); nothing reaches storage
+                *db.ctl.commit_plan.lock().unwrap() = CommitPlan::CaptureAll;
                 let dir = new_dir::<TC>(&db, &ctx.vrf, CacheCfg::None, AzksParallelismConfig::disabled()).await;
                 let res = dir.publish(to_akd_batch(next)).await;
                 *db.ctl.commit_plan.lock().unwrap() = CommitPlan::Apply;
                 let captured = std::mem::take(&mut *db.ctl.captured.lock().unwrap());
-                if res.is_ok() || captured.len() != 1 {
+                if captured.is_empty() {
                     self.rep.violation(
-                        format!("{}/commit_not_a_single_batch", TC::NAME),
-                        json!({"history": hist(), "result_ok": res.is_ok(), "commit_batches": captured.len()}),
+                        format!("{}/publish_wrote_nothing", TC::NAME),
+                        json!({"history": hist(), "result_ok": res.is_ok()}),
                     );
                     return;
                 }
                 if db.ctl.commit_azks_last_violations.load(std::sync::atomic::Ordering::SeqCst) > 0 {
                     self.rep.violation(format!("{}/epoch_record_not_last_in_commit", TC::NAME), json!({"history": hist()}));
                 }
-                let batch = captured.into_iter().next().unwrap();
-                let (azks_rec, body): (Vec<DbRecord>, Vec<DbRecord>) = batch.into_iter().partition(|r| matches!(r, DbRecord::Azks(_)));
+                // the epoch record must be part of the LAST write call only
+                let ncalls = captured.len();
+                for (ci, call) in captured.iter().enumerate() {
+                    if ci + 1 < ncalls && call.iter().any(|r| matches!(r, DbRecord::Azks(_))) {
+                        self.rep.violation(format!("{}/epoch_record_written_before_other_records", TC::NAME), json!({"history": hist(), "write_call": ci, "of": ncalls}));
+                    }
+                }
+                // union of all written records (the last write of a key wins)
+                let mut by_key: std::collections::BTreeMap<Vec<u8>, DbRecord> = std::collections::BTreeMap::new();
+                for call in captured.into_iter() {
+                    for r in call {
+                        by_key.insert(crate::gate::rec_key(&r), r);
+                    }
+                }
+                let (azks_rec, body): (Vec<DbRecord>, Vec<DbRecord>) = by_key.into_values().partition(|r| matches!(r, DbRecord::Azks(_)));
                 if azks_rec.len() != 1 {
                     self.rep.violation(format!("{}/commit_without_single_epoch_record", TC::NAME), json!({"history": hist()}));
                     return;
@@ -159,6 +174,33 @@ impl<'r> V11<'r> {
                             );
                         }
                     }
+                    // the caller's retry: a writer restarted on the partially written storage publishes the SAME batch
+                    // again. No property promises that this succeeds (after an arbitrary partial write akd refuses
+                    // with an error, which is fine); but if it reports success it must have written the epoch record
+                    // of the model's next epoch, and then "the new epoch is served completely" applies
+                    {
+                        let dbr = dbw.fork().await;
+                        let wd = new_dir::<TC>(&dbr, &ctx.vrf, CacheCfg::None, AzksParallelismConfig::disabled()).await;
+                        let mut pub2 = ctx.published.clone();
+                        pub2.push(model_root::<TC>(&model_new).0);
+                        self.rep.eval(1);
+                        match wd.publish(to_akd_batch(next)).await {
+                            Err(_) => self.rep.count("retry_after_partial_commit_refused", 1),
+                            Ok(eh) if eh.0 == model_new.epoch && eh.1 == pub2[model_new.epoch as usize] => {
+                                self.rep.count("retry_after_partial_commit_completed", 1);
+                                for b in reader_suite::<TC, _>(&wd, &model_new, &pub2, &[], true).await {
+                                    self.rep.violation(
+                                        format!("{}/retry_after_partial_commit/new_epoch_not_served_completely/{}", TC::NAME, b.kind),
+                                        json!({"history": hist(), "written": format!("{mask:#b} of {n} records"), "detail": b.detail}),
+                                    );
+                                }
+                            }
+                            Ok(eh) => self.rep.violation(
+                                format!("{}/retry_after_partial_commit/success_reported_with_wrong_epoch_hash", TC::NAME),
+                                json!({"history": hist(), "written": format!("{mask:#b} of {n} records"), "got": [eh.0, hex::encode(eh.1)], "expected_epoch": model_new.epoch}),
+                            ),
+                        }
+                    }
                     if mask == (1u64 << n) - 1 {
                         // now the epoch record lands: the new epoch is served completely
                         dbw.inner.batch_set(azks_rec.clone(), DbSetState::General).await.unwrap();
@@ -186,7 +228,9 @@ fn run_cfg<TC: ModelCfg>(args: &Args, v: &V11, depth: usize) {
         let mut next = vec![];
         for p in &frontier {
             for (i, b) in alphabet.iter().enumerate() {
-                if b.is_empty() || (!v.thorough && b.iter().any(|(_, val)| val == b"y")) {
+                // prefix histories: quick — value x only; thorough — the FIRST batch uses value x only (shape
+                // classes), later batches range over x and y
+                if b.is_empty() || ((!v.thorough || p.is_empty()) && b.iter().any(|(_, val)| val == b"y")) {
                     continue;
                 }
                 let mut q = p.clone();
@@ -227,7 +271,7 @@ fn run_cfg<TC: ModelCfg>(args: &Args, v: &V11, depth: usize) {
 
 pub fn run(args: &Args) -> i32 {
     let rep = Report::new("C11", &args.tier, "fault_enumeration");
-    let (depth, full_max) = if args.quick() { (1, 7) } else { (2, 12) };
+    let (depth, full_max) = if args.quick() { (1, 7) } else { (2, 9) };
     let v = V11 { rep: &rep, full_subsets_max: full_max, thorough: !args.quick() };
     run_cfg::<W>(args, &v, depth);
     run_cfg::<E>(args, &v, depth);
